@@ -304,6 +304,10 @@ func (m Message) GetMetaSeqData(bt *[]byte) bool {
 
 	if bt != nil {
 		data := m.metaDataWithoutVarlength()
+		// the length field takes more than one byte for data of 128 bytes and more
+		for i := 2; i < len(m)-1 && m[i]&0x80 != 0; i++ {
+			data = data[1:]
+		}
 		*bt = data
 	}
 	return true
